@@ -156,6 +156,7 @@ class Gen:
         self.nvar = 0
         self.nfun = 0
         self.allow_known = rng.random() < 0.03    # programs that may fall into the known class
+        self.object_names = rng.random() < 0.45   # programs whose classes override Object's own method names
 
     def lab(self):
         self.label += 1
@@ -190,8 +191,23 @@ class Gen:
             vis.update(self.classes[c]["methods"])
         return vis
 
+    def derives_body(self, cname, parent, kind):
+        """a member named like Object's native method `derives` (core.rs bind_object_class; `Type` copies it):
+        the user definition must win for the class and all its descendants"""
+        r = self.r
+        body = [S_print(E_str("%s.derives" % cname))]
+        if kind != "KStatic" and r.random() < 0.6:
+            # what the next definition up the declared ancestry (a user override, or Object's native) answers
+            body.append(S_print(E_sinv("derives", [E_var("c")])) if parent else S_print(E_var("c")))
+            if parent:
+                self.features.add("super_object_method")
+        body.append(S_ret(E_str("%s.derives!" % cname)))
+        return body
+
     def method_body(self, cname, mname, idx, params, kind, parent, own_names):
         r = self.r
+        if mname == "derives":
+            return self.derives_body(cname, parent, kind)
         body = [S_print(E_str("%s.%s" % (cname, mname)))]
         recv = "ECapSelf" if kind == "KStatic" else "ESelf"
         for p in params:
@@ -223,7 +239,7 @@ class Gen:
             vis = self.visible(parent) if parent in self.classes else {}
             if r.random() < (0.7 if mname in vis else 0.25):
                 # super.m with a name of the same or a higher index, so that calls terminate
-                cands = [n for n in vis if n[0] == "m" and int(n[1:]) >= idx] if mname[0] == "m" else [mname]
+                cands = [n for n in vis if n[0] == "m" and n[1:].isdigit() and int(n[1:]) >= idx] if mname[0] == "m" else [mname]
                 target = mname if (mname in vis or not cands or r.random() < 0.5) else r.choice(cands)
                 ar = vis.get(target, (len(params), None))[0]
                 if r.random() < 0.1:
@@ -235,9 +251,16 @@ class Gen:
                 else:
                     body.append(S_expr(E_sinv(target, self.args(ar))))
                 self.features.add("super")
+        if kind != "KStatic" and self.object_names and r.random() < 0.3:
+            q = E_var(r.choice(["Object", cname]))
+            body.append(S_print(E_inv("ESelf", "derives", [q])))
+            self.features.add("object_method_via_self")
+            if parent and r.random() < 0.6:
+                body.append(S_print(E_sinv("derives", [q])))
+                self.features.add("object_method_via_super")
         if kind != "KStatic" and mname[0] == "m" and r.random() < 0.45:
             vis = self.visible(cname)
-            later = sorted(n for n in vis if n[0] == "m" and int(n[1:]) > idx)
+            later = sorted(n for n in vis if n[0] == "m" and n[1:].isdigit() and int(n[1:]) > idx)
             if later:
                 n = r.choice(later)
                 ar = vis[n][0] if r.random() < 0.92 else r.randint(0, 2)
@@ -328,6 +351,9 @@ class Gen:
                 kind = "KStatic"
                 self.features.add("static_instance_name_clash")
             ms.append((kind, n, ["a", "b"][:ar], None))
+        if self.object_names and r.random() < (0.45 if pinfo else 0.15):
+            ms.append((r.choice(["KMethod"] * 5 + ["KStatic"]), "derives", ["c"], None))
+            self.features.add("object_method_overridden" + ("_below_root" if pinfo else "_at_root"))
         for n in ["s0", "s1"]:
             if r.random() < 0.4:
                 ms.append(("KStatic", n, ["a"][: r.choice([0, 0, 1])], None))
@@ -452,6 +478,12 @@ class Gen:
             ar = vis.get(fld, (r.randint(0, 2), None))[0]
             self.stmts.append(self.maybe_try(S_expr(E_inv(x, fld, self.args(ar))), 0.9))
             self.features.add("field_shadows_method")
+        elif c < 0.74 and self.order and self.object_names:
+            q = r.choice(self.order + ["Object"])
+            g = self.new_var("d")
+            self.stmts.append(S_var(g, E_get(x, "derives")))
+            self.stmts.append(self.maybe_try(S_print(E_call(E_var(g), [E_var(q)])), 0.6))
+            self.features.add("object_method_bound")
         elif c < 0.78 and self.order:
             q = r.choice(self.order + ["Object"])
             e = E_inv(x, "derives", [E_var(q)])
@@ -667,6 +699,33 @@ class Gen:
             else:
                 self.use_instance()
         return "[" + ";\n ".join(self.stmts) + "]"
+
+
+def fixed_programs():
+    """hand-written programs of the mini-language that every run includes"""
+    shape = S_class("Shape", None, None, [M_decl("KMethod", "derives", ["c"], [S_ret(E_str("Shape.derives"))], 1)], 2)
+    polygon = S_class("Polygon", "Shape", "new", [
+        M_decl("KMethod", "via_self", ["c"], [S_ret(E_inv("ESelf", "derives", [E_var("c")]))], 3),
+        M_decl("KMethod", "via_super", ["c"], [S_ret(E_sinv("derives", [E_var("c")]))], 4)], 5)
+    square = S_class("Square", "Polygon", "new", [], 6)
+    circle = S_class("Circle", "Object", "new", [], 7)
+    stmts = [shape, polygon, square, circle,
+             S_var("p", E_inv(E_var("Polygon"), "new", [])),
+             S_print(E_inv(E_var("p"), "derives", [E_var("Object")])),
+             S_var("b", E_get(E_var("p"), "derives")),
+             S_print(E_call(E_var("b"), [E_var("Object")])),
+             S_print(E_inv(E_var("p"), "via_self", [E_var("Object")])),
+             S_print(E_inv(E_var("p"), "via_super", [E_var("Object")])),
+             S_var("q", E_inv(E_var("Square"), "new", [])),
+             S_print(E_inv(E_var("q"), "derives", [E_var("Object")])),
+             S_print(E_inv(E_var("q"), "via_self", [E_var("Shape")])),
+             S_var("o", E_inv(E_var("Circle"), "new", [])),
+             S_print(E_inv(E_var("o"), "derives", [E_var("Object")])),
+             S_print(E_inv(E_var("o"), "derives", [E_var("Shape")])),
+             S_try([S_print(E_inv(E_var("Shape"), "derives", [E_var("Object")]))]),
+             S_print(E_inv(E_var("Circle"), "derives", [E_var("Object")]))]
+    return [{"term": "[" + ";\n ".join(stmts) + "]", "globals": ["Shape", "Polygon", "Square", "Circle", "p", "b", "q", "o"],
+             "features": ["fixed:object_method_override"]}]
 
 
 def gen_program(rng, big=False):
@@ -1002,7 +1061,7 @@ def run(ctx):
                         "samples": [inp.get("source", "")]})
         return
     n = int(os.environ.get("C07_N", "0")) or (320 if ctx.quick() else 1600)
-    cases = [gen_program(ctx.rng, big=(i % 3 == 2)) for i in range(n)]
+    cases = fixed_programs() + [gen_program(ctx.rng, big=(i % 3 == 2)) for i in range(n)]
     stats = new_stats()
     models, recs, recsm = run_batch(ctx, cases, "c07", stats)
     fails = compare(ctx, cases, models, recs, recsm, stats)
